@@ -481,13 +481,16 @@ func (db *SpecDB) LoadSpecFile(path, pkg string, assumed bool) error {
 			default:
 				return fail(fmt.Errorf("bad loop clause %q", k2))
 			}
-		case "callsite", "onstore", "onselect":
+		case "callsite", "onstore", "onselect", "onupdate":
 			if cur == nil {
 				return fail(fmt.Errorf("callsite outside func"))
 			}
 			pat, tail := splitWord(rest)
 			if kw == "onstore" {
 				pat = "store:" + pat // assignment to the field of that name
+			}
+			if kw == "onupdate" {
+				pat = "update:" + pat // m[k] = v on the map variable / field of that name
 			}
 			if kw == "onselect" {
 				pat = "select:" + pat // the N-th select statement of the function
